@@ -155,6 +155,8 @@ def compare(case, obs, model, probes):
                     want.setdefault(PEER_TASK[m[2]], []).append("fin" if m[0] == 1 else "rst")
             for task, kinds in want.items():
                 e = peer_end(obs, task, cinc)
+                if e is None and task == "C" and case["cfg"].get("tcp_capacity", 64) < 3:
+                    continue      # known finding WriterBlockedFullWindow: C is blocked in write_all
                 if e is None:
                     return "event %d (%s n0): model sends %s for the stream of client task %s, the task never saw its stream end" % (k, name, kinds, task)
                 if e[2] < k:
@@ -167,8 +169,9 @@ def compare(case, obs, model, probes):
 
 # ---- generators ------------------------------------------------------------------------
 
-def mk_case(events, tick=1, lat=1, seed=1, random_order=False, twin=True, flavour="crash", mc=()):
-    return {"cfg": {"tick_ms": tick, "lat_ms": lat, "seed": seed, "random_order": random_order, "mc_members": list(mc)},
+def mk_case(events, tick=1, lat=1, seed=1, random_order=False, twin=True, flavour="crash", mc=(), cap=64, busy=6):
+    return {"cfg": {"tick_ms": tick, "lat_ms": lat, "seed": seed, "random_order": random_order, "mc_members": list(mc),
+                    "tcp_capacity": cap, "busy_ticks": busy},
             "events": events, "twin": twin, "fam": "crash", "flavour": flavour}
 
 
@@ -182,6 +185,23 @@ def crash_points(tick, lat, who, total=22, bounce_after=(None, 0, 1, 4), seed=1,
                 ev += [["step"]] * j + [["bounce", who]]
             ev += [["step"]] * (total - i) + [["probe"]]
             out.append(mk_case(ev, tick, lat, seed + i, (i + (j or 0)) % 3 == 0, flavour=flavour, mc=mc))
+    return out
+
+
+def burst_points():
+    """Small receive windows (tcp_capacity 1, 2, 4): the server writes a full window to the burst
+    port and idles, the clients drain it (peek + read_exact / plain reads) after being busy;
+    the server is crashed at every step index."""
+    out = []
+    for cap in (1, 2, 4):
+        for busy in (5, 9):
+            for i in range(0, 16):
+                for j in (None, 3):
+                    ev = [["step"]] * i + [["crash", {"h": 0}]]
+                    if j is not None:
+                        ev += [["step"]] * j + [["bounce", {"h": 0}]]
+                    ev += [["step"]] * (30 - i) + [["probe"]]
+                    out.append(mk_case(ev, 1, 1, 70 + i, False, flavour="crash-burst", cap=cap, busy=busy))
     return out
 
 
@@ -229,15 +249,17 @@ def gen_random(rng):
             ev.append(["step"])
     ev += [["step"]] * 10 + [["probe"]]
     return mk_case(ev, tick, lat, rng.randrange(1 << 30), rng.random() < 0.4, flavour="crash-random",
-                   mc=rng.choice([(), (2,), (2,), (2, 3), (3,)]))
+                   mc=rng.choice([(), (2,), (2,), (2, 3), (3,)]), cap=rng.choice([64, 64, 4, 2, 1]), busy=rng.choice([3, 6, 9]))
 
 
 def histogram(cases):
     h = {"cases": len(cases), "events": {}, "victims": {}, "ticks_ms": {}, "lat_ms": {}, "flavours": {}, "selectors": {"h": 0, "ip": 0, "re": 0},
-         "multicast_members": {}}
+         "multicast_members": {}, "tcp_capacity": {}}
     for c in cases:
         nm = str(1 + len(c["cfg"].get("mc_members", [])))
         h["multicast_members"][nm] = h["multicast_members"].get(nm, 0) + 1
+        cp = str(c["cfg"].get("tcp_capacity", 64))
+        h["tcp_capacity"][cp] = h["tcp_capacity"].get(cp, 0) + 1
         h["flavours"][c.get("flavour", "?")] = h["flavours"].get(c.get("flavour", "?"), 0) + 1
         h["ticks_ms"][str(c["cfg"]["tick_ms"])] = h["ticks_ms"].get(str(c["cfg"]["tick_ms"]), 0) + 1
         h["lat_ms"][str(c["cfg"]["lat_ms"])] = h["lat_ms"].get(str(c["cfg"]["lat_ms"]), 0) + 1
@@ -252,4 +274,5 @@ def histogram(cases):
 
 
 def case_signature(case):
-    return json.dumps([case["cfg"]["tick_ms"], case["cfg"]["lat_ms"], case["cfg"].get("mc_members", []), case["events"]], sort_keys=True)
+    return json.dumps([case["cfg"]["tick_ms"], case["cfg"]["lat_ms"], case["cfg"].get("mc_members", []), case["cfg"].get("tcp_capacity", 64),
+                       case["cfg"].get("busy_ticks", 6), case["events"]], sort_keys=True)
